@@ -45,6 +45,8 @@ def main():
     out["demo_with_change_exit"] = rc_with
     out["demo_without_change_exit"] = rc_without
     print(f"demo: with change exit {rc_with}, without exit {rc_without}")
+    if rc_without != 0:
+        print("demo output on the unchanged tree (tail):", o_without[-600:])
     if run_suite:
         rc, o = sh(f"{PY} -m pytest -q -p no:cacheprovider --timeout=900 2>&1 | grep -E ' passed| failed| error' | tail -1", cwd=wt, timeout=1500)
         out["suite_with_change"] = o.strip()
